@@ -26,8 +26,10 @@ LEVEL_NOTE = ("Theorems are about the Gallina model Exec/SubscribeModel.v of exe
               "model is tied to /repo by running real subscriptions on a private asyncio loop on every run and "
               "comparing per-event responses with the same selection executed as a plain query on a fresh executor. "
               "Concurrent __anext__ calls on one stream are outside the model.")
-RULE = ("event lists of length 0-8 whose per-event failures (non-null violations, resolver errors with/without "
-        "extensions, null list items, null root field) are carried by the event payload; 7 selections (aliases, "
+RULE = ("event payloads from a family (dicts carrying their failures, None, 0, '', False, True, [], {}, unrelated dicts, "
+        "plain objects) at every position incl. several payload-less events in a row, under root fields that read the "
+        "event by key, echo it, or ignore it; event lists of length 0-8 whose per-event failures (non-null violations, resolver errors with/without "
+        "extensions, null list items, null root field) are carried by the event payload; 10 selections (aliases, "
         "fragments, arguments, variables, directives); sources: async generator function, plain function returning "
         "an async iterator, coroutine returning one; sync and async field resolvers; sleep(0) delays before "
         "events, in resolvers and in the consumer; 19 refusal requests incl. combined conditions; non-trivial = "
@@ -42,6 +44,12 @@ def corpus():
     out.append(_stream(["n_null", "n_null", "ok", "sub_null"], 0, "async", "sync", [0, 1, 0, 1], 0))
     out.append(_stream([], 0, "agen", "sync", [], 0))
     out.append(_stream(["ok"], 3, "sync", "sync", [0], 0))
+    # payload-less / falsy events are events: one result each, the stream goes on (seeded C17-b)
+    out.append(_stream(["ok", "raw_none", "ok"], 1, "agen", "sync", [0, 0, 0], 0))
+    out.append(_stream(["raw_none"], G.SEL_ECHO, "sync", "sync", [0], 0))
+    out.append(_stream(["raw_none", "raw_none", "raw_zero", "raw_none"], G.SEL_TICK, "async", "async", [0, 1, 0, 0], 1))
+    out.append(_stream(["raw_zero", "raw_empty_str", "raw_false", "raw_empty_list", "raw_empty_dict", "raw_obj", "raw_none"],
+                       G.SEL_ECHO, "agen", "async", [0] * 7, 0))
     for r in G.REFUSALS:
         out.append(_refusal(r))
     return out
@@ -68,6 +76,26 @@ def generate(rng, tier):
         cases.append(_stream(variants, rng.randrange(len(G.SELECTIONS)), sources[i % 3],
                              "async" if (i // 3) % 2 else "sync",
                              [rng.choice([0, 0, 1, 2, 3]) for _ in range(n)], rng.choice([0, 0, 1, 2])))
+    # the event-payload family: every raw payload first / in the middle / last / several in a row,
+    # under selections whose root resolver echoes the event, ignores it, or reads it by key (default path)
+    shapes = [lambda r, o: [r], lambda r, o: [r, o], lambda r, o: [o, r], lambda r, o: [o, r, o],
+              lambda r, o: [r, r, o], lambda r, o: [o, r, r], lambda r, o: [r, o, r, r, o]]
+    sels = [G.SEL_ECHO, G.SEL_TICK, 1, G.SEL_ECHO_ALIAS, 2]
+    j = 0
+    for raw in G.RAW_NAMES:
+        for si, shape in enumerate(shapes):
+            if quick and raw not in G.FALSY_RAW and si % 3:
+                continue
+            other = ["ok", "raw_int", "raw_str", "v_raise"][j % 4]
+            variants = shape(raw, other)
+            cases.append(_stream(variants, sels[j % len(sels)], sources[j % 3], "async" if (j // 3) % 2 else "sync",
+                                 [(j + i) % 3 % 2 for i in range(len(variants))], j % 2))
+            j += 1
+    for i in range(40 if quick else 500):
+        n = rng.randint(1, 8)
+        variants = [rng.choice(G.RAW_NAMES + G.FALSY_RAW + ["ok", "v_raise"]) for _ in range(n)]
+        cases.append(_stream(variants, rng.choice(sels + [0, 3, 4]), sources[i % 3], "async" if i % 2 else "sync",
+                             [rng.choice([0, 0, 1, 2]) for _ in range(n)], rng.choice([0, 1])))
     # exhaustive failure patterns (fail / ok per event) up to 4 (quick) / 6 (thorough) events
     maxn = 4 if quick else 6
     j = 0
@@ -282,7 +310,8 @@ def show_expr(case, obs):
 def nontrivial(case, obs):
     if case["kind"] == "refusal":
         return True
-    return len(case["variants"]) >= 2 and any(v != "ok" for v in case["variants"])
+    return (len(case["variants"]) >= 2 and any(v != "ok" for v in case["variants"])) or \
+        any(v.startswith("raw_") for v in case["variants"])
 
 
 def canonical(case):
